@@ -469,15 +469,14 @@ func (r *runner) runCase(job caseJob, solver *Solver) {
 		ex.bounds[k] = tierVal(v, r.tier, 0)
 	}
 	u := r.unitOf(h)
-	for _, uu := range r.cfg.Units {
-		for from, to := range uu.Overrides {
-			f := findFunc(r.prog, r.byPath, to)
-			if f == nil {
-				r.inconclusive(res, "override target not found: "+to)
-				return
-			}
-			ex.overrides[from] = f
+	// the overrides of the harness's own unit apply (two units may stub the same function differently)
+	for from, to := range u.Overrides {
+		f := findFunc(r.prog, r.byPath, to)
+		if f == nil {
+			r.inconclusive(res, "override target not found: "+to)
+			return
 		}
+		ex.overrides[from] = f
 	}
 	ex.forkChoices = append([]int{}, job.prefix...)
 	ex.forkSizes = make([]int, len(job.prefix))
@@ -517,6 +516,10 @@ func (r *runner) runCase(job caseJob, solver *Solver) {
 	}
 	if fatal != "" {
 		r.inconclusive(res, "case "+ex.curCase+": "+fatal)
+		// the assertions recorded before the run stopped are complete obligations of the executed prefix: decide them
+		// (a violation among them is reported even though the case as a whole stays inconclusive)
+		ex.reaches, ex.unwinds, ex.panics, ex.blocks, ex.accesses = nil, nil, nil, nil, nil
+		r.discharge(h, res, ex, solver)
 		return
 	}
 	if os.Getenv("VS_TERMHIST") != "" {
